@@ -504,12 +504,12 @@ func (fx *FnExec) doAppend(st *State, cc *ssa.CallCommon, args []*Term, p token.
 	k := Var("k!a", SInt)
 	sel := App("select", es, narr, k)
 	fx.c.Assume(Implies(st.guard, And(
-		Forall([]*Term{k}, Implies(And(Le(IntLit(0), k), Lt(k, n1)), Eq(sel, Select(Select(h, SlcBase(s)), Add(SlcOff(s), k)))), sel),
-		Forall([]*Term{k}, Implies(And(Le(n1, k), Lt(k, Add(n1, n2))), Eq(sel, Select(Select(h, SlcBase(extra)), Add(SlcOff(extra), Sub(k, n1))))), sel))))
+		Forall([]*Term{k}, Implies(And(Le(IntLit(0), k), Lt(k, n1)), Eq(sel, fx.elemAt(h, s, k))), sel),
+		Forall([]*Term{k}, Implies(And(Le(n1, k), Lt(k, Add(n1, n2))), Eq(sel, fx.elemAt(h, extra, Sub(k, n1)))), sel))))
 	// eager instantiation for literal-length varargs
 	if n2.lit != nil && n2.lit.IsInt64() && n2.lit.Int64() <= 16 {
 		for i := int64(0); i < n2.lit.Int64(); i++ {
-			fx.c.Assume(Implies(st.guard, Eq(App("select", es, narr, Add(n1, IntLit(i))), Select(Select(h, SlcBase(extra)), Add(SlcOff(extra), IntLit(i))))))
+			fx.c.Assume(Implies(st.guard, Eq(App("select", es, narr, Add(n1, IntLit(i))), fx.elemAt(h, extra, IntLit(i)))))
 		}
 	}
 	fx.heapSet(st, name, Store(h, r, narr))
